@@ -191,6 +191,7 @@ func runC03(c *Cfg) {
 	mcs = append(mcs, startlessBranchCases()...)
 	mcs = append(mcs, selfEmbeddedCases()...)
 	mcs = append(mcs, lateInnerEdgeCases()...)
+	mcs = append(mcs, flowRetryCases()...) // flows with a budget of their own, run through flyt.Run and through Flow.Run
 	mcs = append(mcs, sharedNodeCases()...) // one node object in several flows: each flow's table is its own
 	mcs = append(mcs, longLoopCases()...) // more than a thousand visits: the table alone decides when a run ends
 	parallel(c, len(mcs), func(i int) {
